@@ -39,8 +39,10 @@ def _nodes_in_order(dag):
         # computation -- the code generator turns these into ISL expressions and never implements them as arrays
         return (n.ndim == 0 and n.dtype.kind == "i"
                 and all(isinstance(i_, pt.array.SizeParam) for i_ in pt.transform.InputGatherer()(n)))
+    from pytato.loopy import LoopyCallResult
     return [n for n in m.topological_order
-            if isinstance(n, pt.Array) and not isinstance(n, (pt.array.InputArgumentBase, pt.array.NamedArray))
+            if isinstance(n, pt.Array) and not isinstance(n, pt.array.InputArgumentBase)
+            and (not isinstance(n, pt.array.NamedArray) or isinstance(n, LoopyCallResult))     # results of loopy calls are arrays like any other
             and not shape_arith(n)]
 
 
